@@ -480,6 +480,22 @@ package saml
 //@    !noIndexAnywhere(req.ServiceProviderMetadata, req.Request.AssertionConsumerServiceIndex) ==>
 //@    strconv.Itoa(req.ACSEndpoint.Index) == req.Request.AssertionConsumerServiceIndex
 
+//@ -- the other direction (C12: the IdP accepts what this library's SP sends): a request that names an ACS URL is turned
+//@ -- away for its endpoint only if no registered endpoint has that location - whatever other endpoints, with other
+//@ -- bindings, are registered at the same or other locations
+//@ go func noURLIn(d SPSSODescriptor, u string) bool {
+//@    return forall(0, len(d.AssertionConsumerServices), func(e int) bool { return d.AssertionConsumerServices[e].Location != u }) }
+//@ go func noURLAnywhere(md *EntityDescriptor, u string) bool {
+//@    return forall(0, len(md.SPSSODescriptors), func(d int) bool { return noURLIn(md.SPSSODescriptors[d], u) }) }
+//@ contract (*IdpAuthnRequest).getACSEndpoint
+//@ loop 3
+//@ invariant[C05,C12] no_url_match_so_far: forall(0, iter, func(d int) bool { return noURLIn(req.ServiceProviderMetadata.SPSSODescriptors[d], req.Request.AssertionConsumerServiceURL) })
+//@ loop 4 vars spssoDescriptor SPSSODescriptor
+//@ invariant[C05,C12] no_url_match_in_descriptor: forall(0, iter, func(e int) bool {
+//@    return spssoDescriptor.AssertionConsumerServices[e].Location != req.Request.AssertionConsumerServiceURL })
+//@ ensures[C05,C12] url_refused_only_if_unregistered: err != nil && req.Request.AssertionConsumerServiceIndex == "" && req.Request.AssertionConsumerServiceURL != "" ==>
+//@    noURLAnywhere(req.ServiceProviderMetadata, req.Request.AssertionConsumerServiceURL)
+
 //@ contract (*IdpAuthnRequest).Validate
 //@ requires[cfg] idp: req.IDP != nil && req.IDP.Certificate != nil && req.IDP.ServiceProviderProvider != nil
 //@ ensures[C05] fresh: err == nil ==> ns(req.Now) <= ns(req.Request.IssueInstant)+int64(MaxIssueDelay)
@@ -499,6 +515,10 @@ package saml
 //@      return !((req.SPSSODescriptor.KeyDescriptors[k].Use == "encryption" || req.SPSSODescriptor.KeyDescriptors[k].Use == "") &&
 //@        len(req.SPSSODescriptor.KeyDescriptors[k].KeyInfo.X509Data.X509Certificates) != 0 &&
 //@        req.SPSSODescriptor.KeyDescriptors[k].KeyInfo.X509Data.X509Certificates[0].Data != "") })
+//@ -- the certificate the assertion is encrypted to is the one certificate that the decoded content of the selected element
+//@ -- is (ParseCertificate fails on trailing data), not one picked from among several found in it
+//@ assert@return[C08] #each (out *x509.Certificate, rerr error) uses der=certBytes? []byte, derSeen=reached:certBytes bool the_selected_certificate:
+//@    rerr == nil ==> derSeen && CertParsedFrom(out, der)
 //@ loop 1 vars certStr string
 //@ invariant[C08] none_so_far: certStr == "" && forall(0, iter, func(k int) bool {
 //@      return !(req.SPSSODescriptor.KeyDescriptors[k].Use == "encryption" &&
@@ -771,6 +791,10 @@ package saml
 //@    len(sp.SignatureMethod) == 0 ==> stored == redirectQuery(rv.RawQuery, requestStr.String(), relayState)
 //@ assert@call[C12,C13] SignString #1 (ctx *dsig.SigningContext, content string) uses rv *url.URL, requestStr strings.Builder signed_octets:
 //@    content == redirectQuery("", requestStr.String(), relayState) + "&SigAlg=" + url.QueryEscape(sp.SignatureMethod)
+//@ -- what goes out as Signature= is what a signing call that SUCCEEDED returned for exactly those octets (a failed call's
+//@ -- empty result is not a signature)
+//@ assert@call[C13] (*encoding/base64.Encoding).EncodeToString #last (enc *base64.Encoding, sig []byte) uses requestStr strings.Builder emits_the_signers_output:
+//@    SignatureOver(sig, redirectQuery("", requestStr.String(), relayState) + "&SigAlg=" + url.QueryEscape(sp.SignatureMethod))
 //@ assert@store[C13] RawQuery #1 (stored string) uses rv *url.URL, requestStr strings.Builder signature_appended:
 //@    len(sp.SignatureMethod) > 0 ==> strings.HasPrefix(stored, redirectBase(rv.RawQuery) +
 //@      redirectQuery("", requestStr.String(), relayState) + "&SigAlg=" + url.QueryEscape(sp.SignatureMethod) + "&Signature=")
@@ -1262,6 +1286,10 @@ package saml
 //@ xmlshape[C03] Status
 //@ xmlshape[C03] StatusCode
 //@ xmlshape[C01,C02] AuthnStatement
+//@ xmlshape[C01] AttributeStatement
+//@ xmlshape[C01] Attribute
+//@ xmlshape[C01] AttributeValue
+//@ xmlshape[C01,C03] NameID
 //@ xmlshape[C05] AuthnRequest
 //@ xmlshape[C18] LogoutResponse
 //@ xmlshape[C01,C05,C08,C14,C15,C18] EntityDescriptor
